@@ -402,8 +402,17 @@ def _observe_frame(case):
 #   ["rows", f]                      column_names and rows of frame f
 #   ["view", r]                      keys / cells / as_dict of row r, read again
 # observed per op: ["class"] | ["frame", cols, rows] | ["row", keys, cells, as_dict items] | ["raise", E]
-def _session_handles(ops):
-    """(classes, frames, rows) created by the ops, or None when an op uses a handle it may not use."""
+def _spec_kind(spec):
+    if spec[0] == "int" and -2 ** 63 <= int(spec[1]) < 2 ** 63:
+        return "int"
+    return "str" if spec[0] == "str" else None
+
+
+def _session_handles(ops, pool_specs=None):
+    """(classes, frames, rows) created by the ops, or None when an op uses a handle it may not use.
+    frames: False = read from Arrow (no append), True = takes any dictionary, ("strict", cols, kinds) = derived from an
+    Arrow frame: append validates against the Arrow schema, so the record must have exactly the columns (and, when the
+    pool is given, values of each column's type)."""
     classes, frames, rows = [], [], 0
     for op in ops:
         k = op[0]
@@ -412,9 +421,21 @@ def _session_handles(ops):
         elif k == "arrow":
             if len(set(op[1])) != len(op[1]) or any(len(r) != len(op[1]) for r in op[2]) or (op[2] and not op[1]):
                 return None  # (a table without columns has no rows)
-            frames.append(False)
+            kinds = None
+            if pool_specs is not None:
+                kinds = [_spec_kind(pool_specs[op[2][0][j]]) if op[2] else "int" for j in range(len(op[1]))]
+            frames.append(("arrow", list(op[1]), kinds))
         elif k in ("frame", "named"):
             frames.append(True)
+        elif k == "reframe":
+            if not (0 <= op[1] < len(frames)):
+                return None
+            frames.append(True)
+        elif k == "derive":
+            if not (0 <= op[1] < len(frames)) or op[2] not in ("head", "slice", "query") or op[3] < 0 or (op[2] == "query" and op[3] < 99):
+                return None
+            base = frames[op[1]]
+            frames.append(True if base is True else ("strict", base[1], base[2]))
         elif k == "rowdict":
             if not (0 <= op[1] < len(classes)) or classes[op[1]]:
                 return None
@@ -424,8 +445,16 @@ def _session_handles(ops):
                 return None
             rows += 1
         elif k == "append":
-            if not (0 <= op[1] < len(frames)) or not frames[op[1]]:
+            if not (0 <= op[1] < len(frames)) or (frames[op[1]] is not True and frames[op[1]][0] != "strict"):
                 return None
+            fr = frames[op[1]]
+            if fr is not True:
+                keys = [key for key, _ in op[2]]
+                if sorted(keys) != sorted(fr[1]):
+                    return None
+                if pool_specs is not None and any(_spec_kind(pool_specs[vi]) != fr[2][fr[1].index(key)] or fr[2][fr[1].index(key)] is None
+                                                  for key, vi in op[2]):
+                    return None
         elif k == "rows":
             if not (0 <= op[1] < len(frames)):
                 return None
@@ -451,11 +480,12 @@ def _observe_session(case):
     from orso.dataframe import DataFrame
     from orso.row import Row
 
-    if _session_handles(case["ops"]) is None:
+    if _session_handles(case["ops"], case["pool"]) is None:
         raise ValueError("invalid session")
     pool = _Pool(case["pool"])
     mapping = case.get("mapping", "dict")
     classes, frames, rows = [], [], []
+    inherited = {}  # id(frame) -> number of leading Row objects taken over from another frame (they keep their own class)
     outs = []
     unchanged = True
     # Every name is given a suffix unique to this session when it is handed to the implementation (and stripped from what
@@ -481,7 +511,7 @@ def _observe_session(case):
         rs = list(df)
         if n != len(rs) or len(df) != n or df.shape != (n, len(cols)):
             raise ValueError("rowcount/shape/len disagree with iteration")
-        if not all(isinstance(r, Row) and tuple(r._fields) == cols for r in rs):
+        if not all(isinstance(r, Row) and tuple(r._fields) == cols for r in rs[inherited.get(id(df), 0):]):
             raise TypeError("a stored row is not a Row over the frame's columns")
         return ["frame", [dec(c) for c in cols], [[pool.vid(x) for x in tuple(r)] for r in rs]]
 
@@ -498,7 +528,7 @@ def _observe_session(case):
         table = _arrow_table([enc(c) for c in op[1]], op[2], pool) if k == "arrow" else None  # a bad table is the harness's fault
         rec = _mkrecord(encd(op[2]), pool, mapping) if k in ("rowdict", "append") else None
         recs = [_mkrecord(encd(items), pool, mapping) for items in op[1]] if k == "frame" else []
-        names = [enc(c) for c in op[1]] if k in ("class", "named") else None
+        names = [enc(c) for c in op[1]] if k in ("class", "named") else [enc(c) for c in op[2]] if k == "reframe" else None
         before = [_snap(m) for m in recs + ([rec] if rec is not None else [])]
         try:
             if k == "class":
@@ -532,6 +562,19 @@ def _observe_session(case):
                 outs.append(frame_out(frames[op[1]]))
             elif k == "view":
                 outs.append(row_out(rows[op[1]]))
+            elif k == "reframe":
+                frames.append(None)
+                base = frames[op[1]]
+                taken = list(base)
+                frames[-1] = DataFrame(rows=taken, schema=names)
+                inherited[id(frames[-1])] = len(taken)
+                outs.append(frame_out(frames[-1]))
+            elif k == "derive":
+                frames.append(None)
+                base = frames[op[1]]
+                frames[-1] = base.head(op[3]) if op[2] == "head" else base.slice(0, op[3]) if op[2] == "slice" else base.query(lambda r: True)
+                inherited[id(frames[-1])] = inherited.get(id(base), 0)
+                outs.append(frame_out(frames[-1]))
         except Exception as e:
             outs.append(_exc(e))
         unchanged = unchanged and [_snap(m) for m in recs + ([rec] if rec is not None else [])] == before
@@ -577,6 +620,12 @@ def _oracle_session(case, obs):
             want = ["frame"] + fr
         elif k == "rows":
             want = ["frame"] + frames[op[1]]
+        elif k == "reframe":
+            frames.append([list(op[2]), list(frames[op[1]][1])])
+            want = ["frame"] + frames[-1]
+        elif k == "derive":
+            frames.append([list(frames[op[1]][0]), list(frames[op[1]][1][: op[3]])])
+            want = ["frame"] + frames[-1]
         if k in ("rowdict", "rowtuple", "view"):
             fields, cells, from_dict = rows[op[1]] if k == "view" else rows[-1]
             if out[0] != "row" or out[1] != fields or out[2] != cells:
@@ -625,6 +674,10 @@ def _coq_sop(op, pool):
         return "(SRows %s)" % L.nat(op[1])
     if k == "view":
         return "(SView %s)" % L.nat(op[1])
+    if k == "reframe":
+        return "(SReframe %s %s)" % (L.nat(op[1]), _keys(op[2]))
+    if k == "derive":
+        return "(SDerive %s %s)" % (L.nat(op[1]), L.nat(op[3]))
     raise KeyError(k)
 
 
@@ -691,6 +744,36 @@ def _session_exhaustive(tier):
                 yield _enumerated_session([c1, c2, c3])
 
 
+def _derived_exhaustive(tier):
+    """A base frame (from dictionaries / names-only with appends / read from Arrow) over [a,b] or [b,a]; a second frame made
+    from its Row objects (under the same, permuted, new, shorter or longer names) or by head / slice / query; a dictionary in
+    another key order appended to the second frame (and to the base); everything read again."""
+    val = {"a": 1, "b": 2, "c": 3}
+    for fields in (["a", "b"], ["b", "a"]):
+        bases = {
+            "frame": [["frame", [[[f, val[f]] for f in fields], [[fields[1], 3]]], False]],
+            "named": [["named", fields], ["append", 0, [["b", 2], ["a", 1]]], ["append", 0, [["a", 3]]]],
+            "arrow": [["arrow", fields, [[val[f] for f in fields], [3 for _ in fields]]]],
+        }
+        for bk, base in bases.items():
+            steps = [["reframe", 0, list(fields)], ["reframe", 0, fields[::-1]], ["reframe", 0, ["c", fields[0]]], ["reframe", 0, [fields[0]]],
+                     ["reframe", 0, fields + ["c"]], ["derive", 0, "head", 1], ["derive", 0, "head", 5], ["derive", 0, "slice", 2],
+                     ["derive", 0, "query", 99], ["derive", 0, "head", 0]]
+            for st in steps:
+                strict = st[0] == "derive" and bk == "arrow"
+                ops = list(base) + [st]
+                ops.append(["append", 1, [["b", 2], ["a", 1]] if strict else [["c", 3], ["b", 2], ["a", 1]]])
+                if not strict:
+                    ops.append(["append", 1, [["b", 1]]])
+                if bk != "arrow":
+                    ops.append(["append", 0, [["b", 3], ["a", 2]]])
+                ops += [["derive", 1, "head", 9], ["append", 2, [["a", 3], ["b", 1]]], ["rows", 0], ["rows", 1], ["rows", 2]]
+                yield {"kind": "session", "pool": _XPOOL, "ops": ops, "mapping": "dict"}
+                if tier == "thorough":
+                    for mk in MAPPINGS[1:]:
+                        yield {"kind": "session", "pool": _XPOOL, "ops": ops, "mapping": mk}
+
+
 def _random_session(rng):
     base = rng.sample(_PLAIN[:4] + (_TRICKY if rng.random() < 0.2 else []), rng.randint(1, 3))
     pool = [["int", rng.randint(-5, 5)], ["int", 2 ** 40 + rng.randint(0, 9)], ["str", rng.choice(["x", "", "é"])], ["str", "y"]]
@@ -710,10 +793,24 @@ def _random_session(rng):
         return base + [rng.choice(_PLAIN[4:])]
 
     ops, classes, frames, nrows = [], [], [], 0
+    strict = {}  # frame handle -> (cols, kinds) when appends are validated against an Arrow schema
+    arrow_info = {}
     for _ in range(rng.randint(3, 12)):
         r = rng.random()
         dict_classes = [i for i, t in enumerate(classes) if not t]
         dict_frames = [i for i, t in enumerate(frames) if t]
+        if frames and rng.random() < 0.18:
+            b = rng.randrange(len(frames))
+            if rng.random() < 0.5:
+                ops.append(["reframe", b, names()])
+            else:
+                how = rng.choice(["head", "slice", "query"])
+                ops.append(["derive", b, how, 99 if how == "query" else rng.choice([0, 1, 2, 5])])
+                if b in arrow_info:
+                    strict[len(frames)] = arrow_info[b]
+                    arrow_info[len(frames)] = arrow_info[b]
+            frames.append(True)
+            continue
         if r < 0.14 or not (classes or frames):
             classes.append(rng.random() < 0.5)
             f = names()
@@ -724,19 +821,22 @@ def _random_session(rng):
             cols = list(dict.fromkeys(names()))
             kinds = [rng.choice([ints, strs]) for _ in cols]
             ops.append(["arrow", cols, [[rng.choice(kd) for kd in kinds] for _ in range(rng.choice([0, 1, 2, 3]) if cols else 0)]])
+            if not ops[-1][2]:
+                kinds = [ints for _ in cols]  # an empty table is built with int64 columns
+            arrow_info[len(frames)] = (cols, kinds)
             frames.append(False)
         elif r < 0.34:
             first = names()
             ds = []
             for j in range(rng.choice([0, 1, 2, 3])):
-                ds.append([[k, rng.randrange(len(pool))] for k in first] if j == 0 else _rand_dict(rng, base + ["zz"], len(pool), bias=first))
+                ds.append([[k, rng.randrange(len(pool))] for k in first] if j == 0 else _rand_dict(rng, list(dict.fromkeys(base + ["zz"])), len(pool), bias=first))
             ops.append(["frame", ds, rng.random() < 0.3])
             frames.append(True)
         elif r < 0.42:
             ops.append(["named", names()])
             frames.append(True)
         elif r < 0.62 and dict_classes:
-            ops.append(["rowdict", rng.choice(dict_classes), _rand_dict(rng, base + ["zz"], len(pool), bias=base)])
+            ops.append(["rowdict", rng.choice(dict_classes), _rand_dict(rng, list(dict.fromkeys(base + ["zz"])), len(pool), bias=base)])
             nrows += 1
         elif r < 0.7 and classes:
             c = rng.randrange(len(classes))
@@ -744,7 +844,14 @@ def _random_session(rng):
             ops.append(["rowtuple", c, [rng.randrange(len(pool)) for _ in range(width)]])
             nrows += 1
         elif r < 0.86 and dict_frames:
-            ops.append(["append", rng.choice(dict_frames), _rand_dict(rng, base + ["zz"], len(pool), bias=base)])
+            tgt = rng.choice(dict_frames)
+            if tgt in strict:
+                cols, kinds = strict[tgt]
+                rec = [[c, rng.choice(kd)] for c, kd in zip(cols, kinds)]
+                rng.shuffle(rec)
+                ops.append(["append", tgt, rec])
+            else:
+                ops.append(["append", tgt, _rand_dict(rng, list(dict.fromkeys(base + ["zz"])), len(pool), bias=base)])
         elif r < 0.93 and frames:
             ops.append(["rows", rng.randrange(len(frames))])
         elif nrows:
@@ -756,9 +863,9 @@ def _random_session(rng):
 def _remove_session_op(ops, i):
     """ops without op i; uses of the handle it created are dropped and later handles renumbered."""
     k = ops[i][0]
-    made = "class" if k == "class" else "frame" if k in ("arrow", "frame", "named") else "row" if k in ("rowdict", "rowtuple") else None
-    users = {"class": ("rowdict", "rowtuple"), "frame": ("append", "rows"), "row": ("view",)}.get(made, ())
-    creators = {"class": ("class",), "frame": ("arrow", "frame", "named"), "row": ("rowdict", "rowtuple")}.get(made, ())
+    made = "class" if k == "class" else "frame" if k in ("arrow", "frame", "named", "reframe", "derive") else "row" if k in ("rowdict", "rowtuple") else None
+    users = {"class": ("rowdict", "rowtuple"), "frame": ("append", "rows", "reframe", "derive"), "row": ("view",)}.get(made, ())
+    creators = {"class": ("class",), "frame": ("arrow", "frame", "named", "reframe", "derive"), "row": ("rowdict", "rowtuple")}.get(made, ())
     h = sum(1 for o in ops[:i] if o[0] in creators)
     out = []
     for j, o in enumerate(ops):
@@ -766,8 +873,8 @@ def _remove_session_op(ops, i):
             continue
         if o[0] in users:
             if o[1] == h:
-                if o[0] in ("rowdict", "rowtuple"):
-                    return None  # would cascade into row handles; keep it simple
+                if o[0] in ("rowdict", "rowtuple", "reframe", "derive"):
+                    return None  # would cascade into further handles; keep it simple
                 continue
             if o[1] > h:
                 o = [o[0], o[1] - 1] + list(o[2:])
@@ -779,7 +886,7 @@ def _shrink_session(case):
     ops = case["ops"]
     for i in reversed(range(len(ops))):
         cand = _remove_session_op(ops, i)
-        if cand is not None and _session_handles(cand) is not None:
+        if cand is not None and _session_handles(cand, case["pool"]) is not None:
             yield dict(case, ops=cand)
     for i, o in enumerate(ops):
         if o[0] in ("rowdict", "append"):
@@ -1434,7 +1541,7 @@ def classify(case, obs):
     if case["kind"] == "session":
         made = []
         for o in case["ops"]:
-            yield "op:" + o[0] + ("-tuples-only" if o[0] == "class" and o[2] else "")
+            yield "op:" + o[0] + ("-tuples-only" if o[0] == "class" and o[2] else "") + ("-" + o[2] if o[0] == "derive" else "")
             if o[0] in ("class", "arrow", "named"):
                 made.append((o[0] + str(o[2]) if o[0] == "class" else o[0], tuple(o[1])))
             elif o[0] == "frame":
@@ -1577,6 +1684,8 @@ def exhaustive(tier):
         # several handles alive in one process
         for c in _session_exhaustive(tier):
             yield c
+        for c in _derived_exhaustive(tier):
+            yield c
         # the object that delivers the dictionaries, read from before and used again afterwards
         for c in _source_exhaustive(tier):
             yield c
@@ -1593,6 +1702,9 @@ def exhaustive(tier):
                     "DataFrame(dicts), DataFrame(rows=[], schema)} x name lists {[a,b],[b,a],[a]" + ("" if tier == "quick" else ",[a,b,c]")
                   + "}, and triples over [a,b]" + (" (third creator: the two class kinds)" if tier == "quick" else "")
                   + ", each followed by a use of every handle and a re-read of every row and frame"
+                  + "; derived frames: base frame {DataFrame(dicts), names-only frame with appends, from_arrow} over [a,b] / [b,a] x second frame "
+                    "{DataFrame(rows=list(base), schema=same / permuted / new / shorter / longer names), head(0/1/5), slice(0,2), query(true)} "
+                    "x dictionaries appended to the second frame, to the base and to a head() of the second, all re-read"
                   + "; sources: each of the 9 carrier classes (list, tuple, dict values view, generator, list iterator, map, reader over a read "
                     "position, queue drain, wrapper round a generator) x record sequences (empty, the 13 single dictionaries over {a,b}, "
                   + ("all 169 pairs" if tier == "thorough" else "25 pairs") + ", three longer ones) x call histories "
